@@ -840,6 +840,39 @@ theorem aliasConstraints_sameShape (w : World) (i1 i2 : ObjId) : SameShape w (al
   · exact SameShape.refl w
   · exact aliasConstraintsL_sameShape w i1 i2
 
+/-- a registered link `p2 follows p1`: where it is attached and what it writes to -/
+theorem reg_entry_of_id {w : World} {k : Nat} {o : Obj} (h : ObjInv w k o) {p1 p2 : String} {i2 : ObjId} {l0 : Nat}
+    (hm2 : i2 ∈ o.params) (hn2 : nameOf w.heap i2 = o.pre ++ p2) (he : (aliasId p1 p2, l0) ∈ o.reg) :
+    (w.lis l0).src = p1 ∧ o.params[(w.lis l0).alias]? = some i2 ∧ (w.lis l0).name = o.pre ++ p2 := by
+  obtain ⟨t, y, ht, htn, hnm, hid⟩ := (h.regOk _ he).tgt
+  have py : Plain y := by
+    obtain ⟨x, hx, px⟩ := h.plain t (List.mem_of_getElem? ht)
+    have : x = y := append_left_cancel' (hx.symm.trans htn)
+    exact this ▸ px
+  have pp2 : Plain p2 := by
+    obtain ⟨x, hx, px⟩ := h.plain i2 hm2
+    have : x = p2 := append_left_cancel' (hx.symm.trans hn2)
+    exact this ▸ px
+  obtain ⟨e1, e2⟩ := aliasId_inj pp2 py hid
+  subst e2
+  have : t = i2 := h.name_inj (List.mem_of_getElem? ht) hm2 (htn.trans hn2.symm)
+  subst this
+  exact ⟨e1.symm, ht, hnm⟩
+
+/-- the id of a new link to an independent parameter is not in use -/
+theorem cycleTest_eq {w : World} {k : Nat} {o : Obj} (h : ObjInv w k o) {p1 p2 : String} {i2 : ObjId}
+    (h2 : find? w.heap o.params (o.pre ++ p2) = some i2) (hy : i2 ∈ o.indep) :
+    cycleTest true w o p1 p2 = followsLoop w o p2 (o.reg.length + 2) p1 := by
+  obtain ⟨hm2, hn2⟩ := ParamList.find?_some h2
+  have : mapFind? (aliasId p1 p2) o.reg = none := by
+    cases hf : mapFind? (aliasId p1 p2) o.reg with
+    | none => rfl
+    | some l0 =>
+      have he : (aliasId p1 p2, l0) ∈ o.reg := (mapFind?_eq_some h.regKeys).1 hf
+      obtain ⟨_, htgt, _⟩ := reg_entry_of_id h hm2 hn2 he
+      exact absurd ⟨_, he, htgt⟩ ((h.indepIff i2 hm2).1 hy)
+  simp [cycleTest, this]
+
 theorem aliasPair_unfold {w : World} {k : Nat} {o : Obj} (h : ObjInv w k o) (ho : w.objs k = some o) (p1 p2 : String) :
     aliasPair w k p1 p2 =
       match find? w.heap o.params (o.pre ++ p1), find? w.heap o.params (o.pre ++ p2) with
@@ -848,7 +881,7 @@ theorem aliasPair_unfold {w : World} {k : Nat} {o : Obj} (h : ObjInv w k o) (ho 
       | some i1, some i2 =>
         if !hasParameter w.heap o.indep (o.pre ++ p2) then { w := w, err := some .bpp }
         else
-          match followsLoop w o p2 (o.reg.length + 2) p1 with
+          match cycleTest true w o p1 p2 with
           | none => { w := w, err := some .hang }
           | some true => { w := w, err := some .bpp }
           | some false =>
@@ -876,7 +909,7 @@ theorem aliasPair_unfold {w : World} {k : Nat} {o : Obj} (h : ObjInv w k o) (ho 
     · have := h.hasRoot hp
       have : o.indep.length ≠ 0 := fun e => this (List.eq_nil_of_length_eq_zero e)
       simp [this]
-  simp only [aliasPair, aliasPairG, ho, hdead, Bool.false_eq_true, if_false, setObj_self ho, cycleTest, if_true]
+  simp only [aliasPair, aliasPairG, ho, hdead, Bool.false_eq_true, if_false, setObj_self ho]
   rfl
 
 theorem findIdx?_of_find? {h : Store} : ∀ {l : List ObjId} {n : String} {i : ObjId}, find? h l n = some i →
@@ -980,7 +1013,7 @@ theorem aliasPair_spec {w : World} {k : Nat} {o : Obj} (h : ObjInv w k o) (ho : 
     all_goals
       intro hy hf
       have hb : hasParameter w.heap o.indep (o.pre ++ p2) = true := hind.2 hy
-      rw [hb, hf] at hr
+      rw [hb, cycleTest_eq h h2 hy, hf] at hr
       simp only [Bool.not_true, Bool.false_eq_true, if_false] at hr
     · rw [hr]; exact ⟨rfl, rfl⟩
     · rw [hr]; exact ⟨rfl, rfl⟩
@@ -1255,25 +1288,6 @@ def unaliased (w : World) (k : Nat) (o : Obj) (p1 p2 : String) (i1 i2 : ObjId) :
   (w.setLsn i1 ((w.lsn i1).filter (fun l => (w.lis l).id != aliasId p1 p2))).setObj k
     { params := o.params, indep := o.indep ++ [i2], reg := mapErase (aliasId p1 p2) o.reg, pre := o.pre }
 
-/-- a registered link `p2 follows p1`: where it is attached and what it writes to -/
-theorem reg_entry_of_id {w : World} {k : Nat} {o : Obj} (h : ObjInv w k o) {p1 p2 : String} {i2 : ObjId} {l0 : Nat}
-    (hm2 : i2 ∈ o.params) (hn2 : nameOf w.heap i2 = o.pre ++ p2) (he : (aliasId p1 p2, l0) ∈ o.reg) :
-    (w.lis l0).src = p1 ∧ o.params[(w.lis l0).alias]? = some i2 := by
-  obtain ⟨t, y, ht, htn, _, hid⟩ := (h.regOk _ he).tgt
-  have py : Plain y := by
-    obtain ⟨x, hx, px⟩ := h.plain t (List.mem_of_getElem? ht)
-    have : x = y := append_left_cancel' (hx.symm.trans htn)
-    exact this ▸ px
-  have pp2 : Plain p2 := by
-    obtain ⟨x, hx, px⟩ := h.plain i2 hm2
-    have : x = p2 := append_left_cancel' (hx.symm.trans hn2)
-    exact this ▸ px
-  obtain ⟨e1, e2⟩ := aliasId_inj pp2 py hid
-  subst e2
-  have : t = i2 := h.name_inj (List.mem_of_getElem? ht) hm2 (htn.trans hn2.symm)
-  subst this
-  exact ⟨e1.symm, ht⟩
-
 theorem unalias_spec {w : World} {k : Nat} {o : Obj} (h : ObjInv w k o) (ho : w.objs k = some o) (p1 p2 : String) :
     let r := unalias w k p1 p2
     (r.err ≠ none → r.w = w) ∧
@@ -1294,11 +1308,11 @@ theorem unalias_spec {w : World} {k : Nat} {o : Obj} (h : ObjInv w k o) (ho : w.
       cases hf : mapFind? (aliasId p1 p2) o.reg with
       | none => rw [hf] at hr; rw [hr]; exact ⟨fun _ => rfl, fun x => by cases x⟩
       | some l0 =>
-        rw [hf] at hr
-        simp only at hr
         have he : (aliasId p1 p2, l0) ∈ o.reg := (mapFind?_eq_some h.regKeys).1 hf
         obtain ⟨hm2, hn2⟩ := ParamList.find?_some h2
-        obtain ⟨_, htgt⟩ := reg_entry_of_id h hm2 hn2 he
+        obtain ⟨hsrc, htgt, hnm⟩ := reg_entry_of_id h hm2 hn2 he
+        rw [hf] at hr
+        simp only [Option.filter, hsrc, hnm, beq_self_eq_true, Bool.and_self, if_true] at hr
         have hnot : i2 ∉ o.indep := fun hin => (h.indepIff i2 hm2).1 hin ⟨_, he, htgt⟩
         have hhas : hasParameter w.heap o.indep (nameOf w.heap i2) = false := by
           cases hb : hasParameter w.heap o.indep (nameOf w.heap i2)
@@ -1316,7 +1330,7 @@ theorem objInv_unaliased {w : World} {k : Nat} {o : Obj} (h : ObjInv w k o) {p1 
       { params := o.params, indep := o.indep ++ [i2], reg := mapErase (aliasId p1 p2) o.reg, pre := o.pre } := by
   obtain ⟨hm1, hn1⟩ := ParamList.find?_some h1
   obtain ⟨hm2, hn2⟩ := ParamList.find?_some h2
-  obtain ⟨hsrc, htgt⟩ := reg_entry_of_id h hm2 hn2 he
+  obtain ⟨hsrc, htgt, _⟩ := reg_entry_of_id h hm2 hn2 he
   set W := unaliased w k o p1 p2 i1 i2 with hW
   have hlsn : ∀ j, W.lsn j = if j = i1 then (w.lsn i1).filter (fun l => (w.lis l).id != aliasId p1 p2) else w.lsn j := by
     intro j; simp [hW, unaliased]
